@@ -513,6 +513,60 @@ impl Property for C09Prop {
                         return fail("C09:slice:captured", format!("`{text}`: {why}"));
                     }
                 }
+                // the slice used at once: indexed and sliced again inside the same expression (every index
+                // of the result and one beyond each end; five second slices), sequence literal and parameter
+                let m = idx.len() as i64;
+                let tail = b.is_none() && c.is_none();
+                if tail || a.unwrap_or(0).wrapping_add(b.unwrap_or(1).wrapping_mul(3)).wrapping_add(c.unwrap_or(2).wrapping_mul(7)).rem_euclid(4) == 0 {
+                    stats.label("slice used at once (chained index / slice)");
+                    let picked = seq_elems(&expected);
+                    for k in -(m + 1)..=m {
+                        let want: Result<Json, &'static str> = if k >= -m && k < m { Ok(picked[(if k < 0 { k + m } else { k }) as usize].clone()) } else { Err("IndexOutOfBounds") };
+                        for text in [
+                            format!("{seq_text}{suffix}[{k}]"),
+                            format!("f := (s: {param_ty}) -> any {{ return s{suffix}[{k}]; }}; f({seq_text})"),
+                            format!("f := (s: {param_ty}, i: int) -> any {{ return s{suffix}[i]; }}; f({seq_text}, {k})"),
+                        ] {
+                            stats.eval();
+                            let o = run::run_text(&text, false);
+                            if let Err(why) = compare(&o, &want, true) {
+                                return fail("C09:slice:chained-index", format!("`{text}`: {why}"));
+                            }
+                        }
+                    }
+                    for (p, q, r) in [(Some(1), None, None), (None, Some(-1), None), (None, None, Some(-1)), (Some(-2), None, None), (Some(0), None, Some(2))] {
+                        let want = rebuild(&expected, &py_slice(idx.len(), p, q, r));
+                        let second = slice_suffix(p, q, r, false);
+                        for text in [format!("{seq_text}{suffix}{second}"), format!("f := (s: {param_ty}) -> any {{ return s{suffix}{second}; }}; f({seq_text})")] {
+                            stats.eval();
+                            let o = run::run_text(&text, false);
+                            if let Err(why) = compare(&o, &Ok(want.clone()), true) {
+                                return fail("C09:slice:chained-slice", format!("`{text}`: {why}"));
+                            }
+                        }
+                    }
+                }
+                // bounds that are themselves computed by slicing (and measuring) another sequence of the
+                // same kind and of the other kind, while the outer operation is under way
+                let small = |v: Option<i64>| v.is_none_or(|v| (-6..=6).contains(&v));
+                if small(a) && small(b) && small(c) && (a.is_some() || b.is_some() || c.is_some()) {
+                    stats.label("bounds computed from slices of another sequence");
+                    for other in ["\"qwerty\"", "[7, 7, 7, 7, 7, 7]"] {
+                        let bound = |v: Option<i64>| match v {
+                            None => String::new(),
+                            Some(v) if v >= 0 => format!("std.len({other}[{}:])", 6 - v),
+                            Some(v) => format!("(0 - std.len({other}[{}:]))", 6 + v),
+                        };
+                        let inner = if c.is_some() || colon2 { format!("[{}:{}:{}]", bound(a), bound(b), bound(c)) } else { format!("[{}:{}]", bound(a), bound(b)) };
+                        for text in [format!("{seq_text}{inner}"), format!("f := (s: {param_ty}) -> any {{ return s{inner}; }}; f({seq_text})")] {
+                            stats.eval();
+                            let o = run::run_text(&text, true);
+                            if let Err(why) = compare(&o, &Ok(expected.clone()), true) {
+                                return fail("C09:slice:computed-bounds", format!("`{text}`: {why}"));
+                            }
+                        }
+                    }
+                }
                 Verdict::Pass
             }
             _ => Verdict::Discard("unknown op"),
